@@ -49,7 +49,7 @@ def val_c(r, a, b):
 def gen_plan(rng, tier, index):
     big = tier == 'thorough'
     routine = rng.wpick(ROUTINES)
-    spec = gen.gen_rdms_spec(rng, n_rdm=(3, 8), n_cond=(5, 12 if big else 10), nan_prob=0.0,
+    spec = gen.gen_rdms_spec(rng, n_rdm=(2, 3) if (routine == 'eval_fixed' and rng.chance(0.4)) else (3, 8), n_cond=(5, 12 if big else 10), nan_prob=0.0,
                              kinds=('unique', 'groups', 'unique'), allow_allsame=False)
     spec['measure'] = 'euclidean'
     method = rng.pick(METHODS)
@@ -79,7 +79,7 @@ def gen_plan(rng, tier, index):
         opts['pat_desc'] = 'pos'
     opts['use_correction'] = rng.chance(0.5) and opts['n_cv'] > 1
     kinds = rng.subset(RANDINT_FAULTS + SHUFFLE_FAULTS, 0.3, 1.0)
-    return {'routine': routine, 'spec': spec, 'method': method, 'models': models, 'opts': opts, 'bare_model': rng.chance(0.5), 'warm_eval': rng.chance(0.35),
+    return {'routine': routine, 'spec': spec, 'method': method, 'models': models, 'opts': opts, 'bare_model': rng.chance(0.5), 'warm_eval': rng.chance(0.35), 'index_groups': rng.chance(0.15),
             'faults': {'rate': rng.pick([0.0, 0.25, 0.5, 0.5]), 'kinds': kinds, 'k_targets': [2, 3, 4, 5, 6]},
             'meta6': rng.chance(0.5), 'meta7': rng.chance(0.25), 'meta8': rng.chance(0.005)}
 
@@ -461,6 +461,9 @@ def run_routine(plan, ctx, script=None, strict=False, N_override=None, quiet_ora
     from rsatoolbox.inference import bootstrap as bsm
     spec, o, routine, method = plan['spec'], plan['opts'], plan['routine'], plan['method']
     data = gen.build_rdms(spec, value_fn=val_c)
+    if plan.get('index_groups') and len(spec['rdm_uids']) >= 4:
+        # the caller's own 'index' for the RDMs: a grouping (two sessions per subject), not a running number
+        data.rdm_descriptors['index'] = [i // 2 for i in range(len(spec['rdm_uids']))]
     log = []
     models, fitters, refs = _build_models(plan, log)
     thetas = _thetas(plan, refs)
@@ -1213,6 +1216,8 @@ def _run_unseamed(plan):
         import rsatoolbox.inference.boot_testset as btm
         o, routine, method = plan['opts'], plan['routine'], plan['method']
         data = gen.build_rdms(plan['spec'], value_fn=val_c)
+        if plan.get('index_groups') and len(plan['spec']['rdm_uids']) >= 4:
+            data.rdm_descriptors['index'] = [i // 2 for i in range(len(plan['spec']['rdm_uids']))]
         models, fitters, refs = _build_models(plan, [])
         thetas = _thetas(plan, refs)
         fit_arg = [m.default_fitter for m in models]
